@@ -21,6 +21,8 @@ import (
 	"fmt"
 	"math/rand"
 	"os"
+	"strconv"
+	"strings"
 	"testing"
 	"unsafe"
 
@@ -33,7 +35,7 @@ import (
 )
 
 const nregs = 3
-const runaway = 64 // no register of any script is that long: stops an extraction loop that does not end
+const runaway = 5000 // no register of any script is that long: stops an extraction loop that does not end
 
 type op struct {
 	Op    string  `json:"op"`
@@ -41,6 +43,7 @@ type op struct {
 	J     int     `json:"j"`
 	X     int     `json:"x"`
 	Xs    []int   `json:"xs"`
+	Quiet bool    `json:"quiet,omitempty"` // recorded scripts: no observation after this step (long scripts)
 	After [][]int `json:"after,omitempty"` // expected element lists of the three registers after the step
 	Lin   []int   `json:"lin,omitempty"`   // expected lin folds
 }
@@ -162,30 +165,39 @@ func sliceLayer[A any](regs [nregs]slice.Seq[A]) ([]int, [][]int) {
 	return caps, share
 }
 
-func digit(x int) string { return string(rune('0' + x)) }
+// string elements: the decimal number followed by a comma ("12,"); the cat fold "^1,2,3," is read back as 0, 1, 2, 3
+func digit(x int) string { return strconv.Itoa(x) + "," }
 func undigit(s string) int {
-	if len(s) != 1 || s[0] < '0' || s[0] > '9' {
+	if !strings.HasSuffix(s, ",") {
 		return -1
 	}
-	return int(s[0] - '0')
+	v, err := strconv.Atoi(strings.TrimSuffix(s, ","))
+	if err != nil {
+		return -1
+	}
+	return v
 }
 func encCat(s string) any {
-	out := make([]int, 0, len(s))
-	for i := 0; i < len(s); i++ {
-		switch {
-		case s[i] == '^':
-			out = append(out, 0)
-		case s[i] >= '0' && s[i] <= '9':
-			out = append(out, int(s[i]-'0'))
-		default:
-			out = append(out, -1)
+	out := []int{}
+	if strings.HasPrefix(s, "^") {
+		out = append(out, 0)
+		s = s[1:]
+	}
+	for s != "" {
+		i := strings.IndexByte(s, ',')
+		if i < 0 {
+			return append(out, -1)
 		}
+		out = append(out, undigit(s[:i+1]))
+		s = s[i+1:]
 	}
 	return out
 }
 
+const linMod = 1000003 // SeqADT.tla: LinMod
+
 func machines() []machine {
-	lin := monoid.FromOp(1, func(x, y int) int { return 2*x + y })
+	lin := monoid.FromOp(1, func(x, y int) int { return (2*x + y) % linMod })
 	cat := monoid.FromOp("^", func(x, y string) string { return x + y })
 	id := func(x int) int { return x }
 	encI := func(x int) any { return x }
@@ -337,7 +349,7 @@ type step struct {
 
 // record executes a script on fresh machines and records every observation.  mlen is the recorder's own
 // bookkeeping of the lengths the script implies (which registers may be asked for their Head).
-func record(script []op) map[string]any {
+func record(script []op, follow bool) map[string]any {
 	ms := machines()
 	combos := []map[string]any{}
 	for _, m := range ms {
@@ -361,12 +373,19 @@ func record(script []op) map[string]any {
 		}
 		st := step{Op: o.Op, I: o.I, J: o.J, X: o.X, Xs: o.Xs}
 		dead := false
-		for _, m := range ms {
-			co := comboObs{Regs: []obs{}, Caps: []int{}, Share: [][]int{}}
-			if p := m.apply(o); p != "" {
-				co.Panic = p
+		panics := make([]string, len(ms))
+		for mi, m := range ms {
+			if panics[mi] = m.apply(o); panics[mi] != "" {
 				dead = true // the script ends here: the registers of this machine are no longer defined
-			} else {
+			}
+		}
+		st.Obs = []comboObs{}
+		for mi, m := range ms {
+			if o.Quiet && !dead {
+				break // a quiet step: applied everywhere, observed nowhere
+			}
+			co := comboObs{Regs: []obs{}, Caps: []int{}, Share: [][]int{}, Panic: panics[mi]}
+			if co.Panic == "" {
 				for k := 0; k < nregs; k++ {
 					co.Regs = append(co.Regs, m.observe(k, mlen[k] > 0))
 				}
@@ -381,7 +400,7 @@ func record(script []op) map[string]any {
 			break
 		}
 	}
-	return map[string]any{"combos": combos, "steps": steps}
+	return map[string]any{"combos": combos, "steps": steps, "follow": follow}
 }
 
 func TestRandom(t *testing.T) {
@@ -423,7 +442,7 @@ func TestRandom(t *testing.T) {
 			}
 			script = append(script, o)
 		}
-		out.Put(record(script))
+		out.Put(record(script, true))
 	}
 	out.Put(map[string]any{"t": "stats", "traces": ntr})
 }
@@ -446,5 +465,96 @@ func TestScript(t *testing.T) {
 		t.Fatal(err)
 	}
 	defer out.Close()
-	out.Put(record(script))
+	quiet := false
+	for _, o := range script {
+		quiet = quiet || o.Quiet
+	}
+	out.Put(record(script, !quiet))
+}
+
+// ---------------------------------------------------------------------------- long scripts (impl -> spec)
+
+// sizes around and beyond plausible internal thresholds (block sizes, growth steps)
+var sizes = []int{0, 1, 2, 3, 4, 5, 7, 8, 9, 15, 16, 17, 31, 32, 33, 63, 64, 65, 127, 128, 129, 255, 256, 257, 1000}
+
+func isSize(n int) bool {
+	for _, s := range sizes {
+		if s == n {
+			return true
+		}
+	}
+	return false
+}
+
+func seqOf(base, n int) []int {
+	xs := make([]int, n)
+	for i := range xs {
+		xs[i] = base + i + 1 // distinct elements
+	}
+	return xs
+}
+
+// walk: r0 = New(n distinct elements); r2 = Cons(x, r0); r1 = Tail(r0); r1 = Tail(r1) ... down to empty, observed
+// whenever the remaining length is one of `sizes` (r0 and r2 must stay what they were all the way).
+func walkScript(base, n int) []op {
+	sc := []op{{Op: "new", I: 1, Xs: seqOf(base, n)}, {Op: "cons", I: 3, J: 1, X: base + n + 1}}
+	if n == 0 {
+		return sc
+	}
+	sc = append(sc, op{Op: "tail", I: 2, J: 1})
+	for l := n - 2; l >= 0; l-- {
+		// observed at the thresholds next below n (six of them) and at the very end
+		observe := l <= 1
+		for k, seen := len(sizes)-1, 0; k >= 0 && seen < 6; k-- {
+			if sizes[k] <= n-2 {
+				seen++
+				observe = observe || sizes[k] == l
+			}
+		}
+		sc = append(sc, op{Op: "tail", I: 2, J: 2, Quiet: !observe})
+	}
+	return sc
+}
+
+// chain: r0 = New(n elements); m times r0 = Cons(x, r0) (observed at the sizes and at the end); r1 = r0 Tail'ed m+2
+// times across the Cons / New boundary (observed around it); r2 keeps the New sequence.
+func chainScript(base, n, m int) []op {
+	sc := []op{{Op: "new", I: 1, Xs: seqOf(base, n)}, {Op: "cons", I: 3, J: 1, X: base + 5000}, {Op: "tail", I: 3, J: 3}}
+	for k := 1; k <= m; k++ {
+		sc = append(sc, op{Op: "cons", I: 1, J: 1, X: base + n + k, Quiet: !(isSize(n+k) || (k >= 31 && isSize(k)) || k == m)})
+	}
+	sc = append(sc, op{Op: "tail", I: 2, J: 1})
+	for k := 2; k <= m+2 && k <= n+m; k++ {
+		left := n + m - k
+		sc = append(sc, op{Op: "tail", I: 2, J: 2, Quiet: !(left >= n-1 && left <= n+1) && !(isSize(left-n) && left-n >= 31)})
+	}
+	return sc
+}
+
+func TestLong(t *testing.T) {
+	if vio.Env("VERIF_MODE", "") != "long" {
+		t.Skip()
+	}
+	out, err := vio.Create(vio.Env("VERIF_OUT", ""))
+	if err != nil {
+		t.Fatal(err)
+	}
+	defer out.Close()
+	base := (vio.EnvInt("VERIF_SEED", 1) % 1000) * 7
+	maxn := vio.EnvInt("VERIF_MAXN", 1000)
+	ntr := 0
+	for _, n := range sizes {
+		if n > maxn {
+			continue
+		}
+		out.Put(record(walkScript(base, n), false))
+		ntr++
+	}
+	for _, n := range []int{0, 1, 5, 31, 32, 33, 64, 257} {
+		for _, m := range []int{34, 70} {
+			out.Put(record(chainScript(base, n, m), false))
+			ntr++
+		}
+	}
+	out.Put(map[string]any{"t": "stats", "traces": ntr})
 }
